@@ -8,6 +8,7 @@
 use anyhow::Result;
 use anyhow::bail;
 
+use crate::config::OutputStreamControl;
 use crate::diff::DiffLine;
 use crate::formatln;
 use crate::lossy_string;
@@ -94,7 +95,15 @@ impl OutcomeTestGenerator for Outcome {
                     expected: _,
                 } => {
                     let mut generated = self.generate_testcase_expression();
-                    let mut output = self.output.stdout.to_output_string(None, &self.escaping);
+                    // the stream that is validated, not always STDOUT
+                    let stream = if self.testcase.config.output_stream
+                        == Some(OutputStreamControl::Stderr)
+                    {
+                        &self.output.stderr
+                    } else {
+                        &self.output.stdout
+                    };
+                    let mut output = stream.to_output_string(None, &self.escaping);
                     if !output.is_empty() && !output.ends_with('\n') {
                         output.push_str(" (no-eol)\n")
                     }
